@@ -31,6 +31,13 @@ inline bool for_each_gp(const Args& a, Reporter& rep, F f) {
   std::string scope = a.opt("scope", "S1");
   int k = (int)a.opti("k", 6), nmin = (int)a.opti("nmin", 3), nmax = (int)a.opti("nmax", 4);
   auto PS = board_PS(a.seed), PC = board_PC(a.seed);
+  // "aligned" boards: several point pairs share an x or a y, so that the tuples contain vertical and horizontal edges, vertices on
+  // one scanline and edges ending exactly above/below other vertices (still subject to the general-position filter)
+  if (a.opt("board", "generic") == "aligned") {
+    PS = {{3, 5}, {61, 5}, {97, 41}, {61, 99}, {7, 77}, {44, 50}, {80, 77}, {25, 30}};
+    PC = {{10, 48}, {50, 8}, {92, 20}, {92, 90}, {30, 95}, {52, 58}, {70, 48}, {10, 15}};
+    if (a.seed) for (auto* b : {&PS, &PC}) for (auto& p : *b) { p.x = (p.x * (2 + a.seed % 97) + 17 * a.seed) % 101; p.y = (p.y * (3 + (a.seed / 97) % 97) + 29 * a.seed) % 101; }
+  }
   u64 idx = 0;
   if (scope == "S1" || scope == "S3") {
     std::vector<Path> subs = polygons_over(PS, k, nmin, nmax), clips = polygons_over(PC, k, nmin, nmax);
@@ -44,7 +51,21 @@ inline bool for_each_gp(const Args& a, Reporter& rep, F f) {
         if (scope == "S1") { GpInput in{S, C, nullptr, scope}; f(in); }
         else for (auto& m : mag_alphabet()) { GpInput in{mag_apply(m, S), mag_apply(m, C), &m, scope}; f(in); }
       }
-    rep.bounds_completed.push_back(scope + " k=" + std::to_string(k) + " n=" + std::to_string(nmin) + ".." + std::to_string(nmax));
+    rep.bounds_completed.push_back(scope + " board=" + a.opt("board", "generic") + " k=" + std::to_string(k) + " n=" + std::to_string(nmin) + ".." + std::to_string(nmax));
+    return true;
+  }
+  if (scope == "S0") {
+    // a single (mostly self-intersecting) subject path, no clip path; both boards' points may be used
+    std::vector<P> B = PS; if (a.opti("both", 0)) B.insert(B.end(), PC.begin(), PC.end());
+    std::vector<Path> subs = polygons_over(B, std::min<int>(k, (int)B.size()), nmin, nmax);
+    for (auto& s : subs) {
+      if (!rep.mine(idx++)) continue;
+      if ((idx & 63) == 0 && rep.out_of_time()) return false;
+      rep.add("inputs_enumerated");
+      if (!general_position(Paths{s})) { rep.add("skipped_not_general_position"); continue; }
+      GpInput in{Paths{s}, Paths(), nullptr, scope}; f(in);
+    }
+    rep.bounds_completed.push_back(scope + " board=" + a.opt("board", "generic") + " k=" + std::to_string(k) + " n=" + std::to_string(nmin) + ".." + std::to_string(nmax));
     return true;
   }
   if (scope == "S2") {
@@ -65,6 +86,41 @@ inline bool for_each_gp(const Args& a, Reporter& rep, F f) {
         }
       }
     rep.bounds_completed.push_back(scope + " k=" + std::to_string(k) + " n=3.." + std::to_string(n2));
+    return true;
+  }
+  if (scope == "S4") {
+    // one subject triangle + THREE clip triangles: every partition of 9 clip-board points into three triangles, every orientation
+    // assignment, against every subject triangle; enlarged board (x3) for clearance. Reaches solution rings that touch in rounded
+    // crossing points (several holes meeting), which one clip path cannot produce.
+    for (auto& p : PS) { p.x *= 3; p.y *= 3; }
+    for (auto& p : PC) { p.x *= 3; p.y *= 3; }
+    std::vector<P> B9 = PC; B9.push_back(P{38 * 3, 77 * 3});
+    std::vector<Path> subs = polygons_over(PS, k, 3, 3);
+    std::vector<std::array<int, 9>> parts;
+    { std::array<int, 9> cur; std::vector<char> used(9, 0);
+      std::function<void(int)> rec = [&](int g) {
+        if (g == 3) { parts.push_back(cur); return; }
+        int a0 = 0; while (used[a0]) ++a0; used[a0] = 1;
+        for (int b = a0 + 1; b < 9; ++b) { if (used[b]) continue; used[b] = 1;
+          for (int c = b + 1; c < 9; ++c) { if (used[c]) continue; used[c] = 1; cur[g * 3] = a0; cur[g * 3 + 1] = b; cur[g * 3 + 2] = c; rec(g + 1); used[c] = 0; }
+          used[b] = 0; }
+        used[a0] = 0; };
+      rec(0); }
+    for (auto& pt : parts)
+      for (int orient_mask = 0; orient_mask < 8; ++orient_mask) {
+        if (!rep.mine(idx++)) continue;
+        if (rep.out_of_time()) return false;
+        Paths C;
+        for (int g = 0; g < 3; ++g) { Path t{B9[pt[g * 3]], B9[pt[g * 3 + 1]], B9[pt[g * 3 + 2]]}; if (orient_mask >> g & 1) std::swap(t[1], t[2]); C.push_back(t); }
+        if (!general_position(C)) { rep.add("skipped_not_general_position", subs.size()); rep.add("inputs_enumerated", subs.size()); continue; }
+        for (auto& s : subs) {
+          rep.add("inputs_enumerated");
+          Paths all = C; all.push_back(s);
+          if (!general_position(all)) { rep.add("skipped_not_general_position"); continue; }
+          GpInput in{Paths{s}, C, nullptr, scope}; f(in);
+        }
+      }
+    rep.bounds_completed.push_back(scope + " k=" + std::to_string(k) + ": subject triangle x 3 clip triangles partitioning 9 points");
     return true;
   }
   fprintf(stderr, "unknown scope %s\n", scope.c_str()); exit(2);
